@@ -148,4 +148,22 @@ func verifSpecHandledSelect(current Identifier, qualified bool, qualifier Identi
 //@   known select: $selDot && $selQual.id == "" && !$selQual.ignoreCase
 //@   ensures select-no-target: ufInt("lex.tok", query, 0) == tkSelect && (!$selReached || $selErr) ==> !handled
 //@   ensures not-handled-select: ufInt("lex.tok", query, 0) == tkSelect && !handled ==> typeis(stmt, *SelectStatement)
-//@   modifies $selReached, $selDot, $selErr, $selQual, $selTable
+//@   modifies nothing, $selReached, $selDot, $selErr, $selQual, $selTable
+
+// ---------------------------------------------------------------------------------------------
+// Selector evaluation as seen by the proxy's handlers (details: C10)
+// ---------------------------------------------------------------------------------------------
+
+//@ iface parser.Selector.Columns
+//@   modifies nothing
+
+//@ iface parser.Selector.Values
+//@   modifies nothing
+
+//@ func parser.FilterColumns [C10]
+//@   requires stmt != nil
+//@   modifies nothing
+
+//@ func parser.FilterValues [C10]
+//@   requires stmt != nil
+//@   modifies nothing
